@@ -9,25 +9,17 @@ From AK Require Import Common.Sx Common.Err C13.Model C13.Run
 Import ListNotations.
 Open Scope Z_scope.
 
-(* remove_columns() of a break-by column of an already rendered table is outside
-   the histories (remove_break_column_refuted) *)
-Definition remove_ok (t : tstate) (names : list str) : Prop :=
-  forall c, In c (t_cols t) -> existsb (str_eqb (c_name c)) names = true ->
-            c_break c = false \/ c_width c = None.
-
-Definition op_ok (t : tstate) (o : op) : Prop :=
-  match o with ORemove names => remove_ok t names | _ => True end.
-
-Lemma step_reachable fs rows t o : fields_okb fs = true -> reachable fs rows t -> op_ok t o ->
+Lemma step_reachable fs rows t o : fields_okb fs = true -> reachable fs rows t ->
   reachable fs rows (fst (step rows t o)).
 Proof.
-  intros Hfs Hr Hok. destruct o as [|s| |names| |]; cbn [step].
+  intros Hfs Hr. destruct o as [|s| |names|lim| |]; cbn [step].
   - unfold obs_print. destruct (print rows t) as [t' r] eqn:E. cbn [fst].
     replace t' with (fst (print rows t)) by (rewrite E; reflexivity). apply R_print, Hr.
   - destruct (set_fmt t s) as [t'|e] eqn:E; cbn [fst]; [apply (R_set fs rows t s t' Hr E)|exact Hr].
   - destruct (set_fmt t (fmt_to_str t)) as [t'|e] eqn:E; cbn [fst];
       [apply (R_set fs rows t _ t' Hr E)|exact Hr].
-  - cbn [fst]. apply R_remove; [exact Hr|exact Hok].
+  - cbn [fst]. apply R_remove, Hr.
+  - cbn [fst]. apply R_limits, Hr.
   - destruct (reachable_inv fs rows t Hfs Hr) as [[Ef _] _].
     unfold rebuild. rewrite Ef.
     destruct (ctor fs (Some (fmt_to_str t)) None None) as [t'|e] eqn:E; cbn [fst];
@@ -42,12 +34,6 @@ Definition shared_ok (fs : list field) (o : option tstate) : Prop :=
   match o with Some x => reachable fs [] x | None => True end.
 Definition sess_ok (fs : list field) (rowsets : list (list row)) (ss : sess) : Prop :=
   Forall (shared_ok fs) (ss_shared ss) /\ Forall (tab_ok fs rowsets) (ss_tabs ss).
-
-Definition mop_ok (ss : sess) (m : mop) : Prop :=
-  match m with
-  | MOp j o => match nth j (ss_tabs ss) None with Some tb => op_ok (tb_st tb) o | None => True end
-  | _ => True
-  end.
 
 Lemma Forall_nth_d {A} (P : A -> Prop) l j d : Forall P l -> P d -> P (nth j l d).
 Proof.
@@ -76,10 +62,10 @@ Proof.
     intros E; inversion E; subst. eexists. exact H.
 Qed.
 
-Theorem mstep_ok fs rowsets ss m : fields_okb fs = true -> sess_ok fs rowsets ss -> mop_ok ss m ->
+Theorem mstep_ok fs rowsets ss m : fields_okb fs = true -> sess_ok fs rowsets ss ->
   sess_ok fs rowsets (fst (mstep fs rowsets ss m)).
 Proof.
-  intros Hfs Hss Hok. pose proof Hss as [Hs Ht]. destruct m as [k fmt lim skip|k s lim skip|j o]; cbn [mstep].
+  intros Hfs Hss. pose proof Hss as [Hs Ht]. destruct m as [k fmt lim skip|k s lim skip|j o]; cbn [mstep].
   - destruct (ctor fs fmt lim skip) as [t|e] eqn:E; cbn [fst]; split; cbn [add_tab ss_shared ss_tabs]; try exact Hs;
       apply Forall_app; split; try exact Ht; constructor; try constructor.
     cbn [tab_ok tb_k tb_st]. apply (R_ctor fs _ fmt lim skip t E).
@@ -87,11 +73,10 @@ Proof.
       apply Forall_app; split; try exact Ht; constructor; try constructor.
     cbn [tab_ok tb_k tb_st]. destruct (src_state_reachable fs rowsets ss s x Hss E) as [rows' Hr].
     apply (R_obj fs _ rows' x lim skip Hr).
-  - cbn [mop_ok] in Hok.
-    pose proof (Forall_nth_d (tab_ok fs rowsets) (ss_tabs ss) j None Ht I) as Hj.
+  - pose proof (Forall_nth_d (tab_ok fs rowsets) (ss_tabs ss) j None Ht I) as Hj.
     destruct (nth j (ss_tabs ss) None) as [tb|]; [|exact Hss].
     cbn [tab_ok] in Hj.
-    pose proof (step_reachable fs _ (tb_st tb) o Hfs Hj Hok) as Hr.
+    pose proof (step_reachable fs _ (tb_st tb) o Hfs Hj) as Hr.
     destruct (step (nth (tb_k tb) rowsets []) (tb_st tb) o) as [t' x]. cbn [fst] in *.
     split; cbn [set_tab ss_shared ss_tabs]; [exact Hs|].
     apply Forall_set_nth; [exact Ht|]. cbn [tab_ok tb_k tb_st]. exact Hr.
@@ -112,27 +97,21 @@ Fixpoint mrun (fs : list field) (rowsets : list (list row)) (ss : sess) (ops : l
   | m :: r => mrun fs rowsets (fst (mstep fs rowsets ss m)) r
   end.
 
-Fixpoint guarded (fs : list field) (rowsets : list (list row)) (ss : sess) (ops : list mop) : Prop :=
-  match ops with
-  | [] => True
-  | m :: r => mop_ok ss m /\ guarded fs rowsets (fst (mstep fs rowsets ss m)) r
-  end.
-
 Theorem mrun_ok fs rowsets ops : forall ss, fields_okb fs = true -> sess_ok fs rowsets ss ->
-  guarded fs rowsets ss ops -> sess_ok fs rowsets (mrun fs rowsets ss ops).
+  sess_ok fs rowsets (mrun fs rowsets ss ops).
 Proof.
-  induction ops as [|m r IH]; intros ss Hfs Hss Hg; cbn [mrun]; [exact Hss|].
-  destruct Hg as [Hm Hg]. apply IH; [exact Hfs|apply mstep_ok; assumption|exact Hg].
+  induction ops as [|m r IH]; intros ss Hfs Hss; cbn [mrun]; [exact Hss|].
+  apply IH; [exact Hfs|apply mstep_ok; assumption].
 Qed.
 
 (* every table of every session: reachable with respect to its own records *)
 Theorem session_tables fs rowsets shared ops j tb :
-  fields_okb fs = true -> guarded fs rowsets (init_sess fs shared) ops ->
+  fields_okb fs = true ->
   nth j (ss_tabs (mrun fs rowsets (init_sess fs shared) ops)) None = Some tb ->
   reachable fs (nth (tb_k tb) rowsets []) (tb_st tb).
 Proof.
-  intros Hfs Hg E.
-  destruct (mrun_ok fs rowsets ops _ Hfs (init_sess_ok fs rowsets shared) Hg) as [_ Ht].
+  intros Hfs E.
+  destruct (mrun_ok fs rowsets ops _ Hfs (init_sess_ok fs rowsets shared)) as [_ Ht].
   pose proof (Forall_nth_d (tab_ok fs rowsets) _ j None Ht I) as H. rewrite E in H. exact H.
 Qed.
 
@@ -197,19 +176,14 @@ Definition sw_long : list row :=
 Definition sw_fmt : str := [105;100;58;50;45;56;44;110;97;109;101;58;49;45;50;48;59;49;58;49].
 Definition sw_ops : list mop :=
   [MNewObj 0 (SShared 0) None None; MNewObj 1 (SShared 0) None None; MOp 0 OPrint; MOp 1 OPrint;
-   MNewObj 1 (STable 0) None (Some [[122;122]]); MOp 2 (OSet [59;42]); MOp 2 OPrint; MOp 0 (ORemove [[105;100]])].
+   MNewObj 1 (STable 0) None (Some [[122;122]]); MOp 2 (OSet [59;42]); MOp 2 OPrint; MOp 0 (ORemove [[105;100]]);
+   MOp 1 (OLimits (Some (Some 0, Some 2)))].
 Definition sw_final : sess := mrun sw_fields [sw_short; sw_long] (init_sess sw_fields [Some sw_fmt]) sw_ops.
 
 Lemma sw_witness :
   fields_okb sw_fields = true /\
-  guarded sw_fields [sw_short; sw_long] (init_sess sw_fields [Some sw_fmt]) sw_ops /\
   map (fun o => match o with Some tb => fmt_to_str (tb_st tb) | None => [] end) (ss_tabs sw_final) =
-    [[110;97;109;101;58;49;45;50;48;40;52;41]; [105;100;58;50;45;56;40;53;41;44;110;97;109;101;58;49;45;50;48;40;50;48;41;59;49;58;49]; [105;100;58;50;45;56;40;53;41;44;110;97;109;101;58;49;45;50;48;40;50;48;41]] /\
+    [[110;97;109;101;58;49;45;50;48;59;49;58;49]; [105;100;58;50;45;56;44;110;97;109;101;58;49;45;50;48;59;48;58;50]; [105;100;58;50;45;56;40;53;41;44;110;97;109;101;58;49;45;50;48;40;50;48;41]] /\
   map (fun o => match o with Some t => fmt_to_str t | None => [] end) (ss_shared sw_final) =
     [[105;100;58;50;45;56;44;110;97;109;101;58;49;45;50;48;59;49;58;49]].
-Proof.
-  split; [vm_compute; reflexivity|]. split.
-  { cbn [guarded sw_ops mop_ok]. repeat split.
-    vm_compute. intros c [<-|[<-|[]]] _; left; reflexivity. }
-  split; vm_compute; reflexivity.
-Qed.
+Proof. split; [vm_compute; reflexivity|]. split; vm_compute; reflexivity. Qed.
